@@ -171,6 +171,11 @@ func c10Files(r *rand.Rand, small bool) (book, log string) {
 }
 
 func runC10(c *core.Ctx) {
+	// in the background: a writer that is silent for half a minute has not reached the end of the file
+	if !c.InChild() {
+		waitPaused := pausedPipes(c, map[string]string{"reg": "log", "csv database-resolved": "book", "print": "log"})
+		defer waitPaused()
+	}
 	// plus command shapes drawn from the catalogue (flag combinations nobody listed by hand); stats opens
 	// its files by name and is exercised in the real-process part
 	{
